@@ -34,7 +34,7 @@ CLAUSE_PROP = {
     "MacroExpressionsParenthesised": "C03", "BatchStrideIsSystemSize": "C03",
     "TermsOnlyInRange": "C03", "CellsInRange": "C03", "NoCellAssignedTwice": "C03", "MacroNSPECIES": "C03", "MacroNEQUATIONS": "C03",
     "MacroNREACTIONS": "C03", "MacroThermal": "C03", "SubscriptsInBounds": "C03", "CsrComplete": "C03", "CsrWellFormed": "C03",
-    "CsrDataWithinNNZ": "C03", "CsrCellsAreTheCells": "C03", "PatternMarksStoredEntries": "C03", "BackendsAgree": "C03",
+    "CsrDataWithinNNZ": "C03", "CsrCellsAreTheCells": "C03", "PatternMarksStoredEntries": "C03", "BackendsAgree": "C03", "SameValueAtTheSameCell": "C03",
     "MalformedCsr": "C03",
     "Inv:Conservation": "C04", "ElementTotals": "C04", "Inv:OmittedIsZero": "C02", "RateSubscriptsInBounds": "C03",
 }
@@ -683,6 +683,7 @@ def main(ctx: Ctx) -> int:
                           f"{desc['reactions'][:4]}", {"desc": {k: v for k, v in desc.items() if k != 'N'}})
             continue
         cellsets = {}
+        cellvalues: dict = {}
         for tag, o in obs.items():
             bad = False
             for part, clause in (("fex_error", "MalformedFex"), ("jac_error", "MalformedJac")):
@@ -717,9 +718,14 @@ def main(ctx: Ctx) -> int:
                 meta[tid] = (ci, tag)
             if pid == "C03":
                 # the structural facts on their own: a term-level mismatch earlier in the conformance trace must not hide them
+                # ... and, cell by cell, the VALUE this back-end stores against the value the first back-end (dense) stores: the signed
+                # monomials per rate symbol and whether the temperature-row wrapper is around them
+                value = (sorted((j[0], j[1], j[2], j[3], j[4], tuple(sorted(j[5]))) for j in observed["jac"]),
+                         sorted(map(tuple, tr["ev"][-1]["wrapped_cells"])))
+                ref = cellvalues.setdefault("ref", value)
                 tid += 1
-                traces.append({"tid": tid, "net": tr["net"], "be": tag, "weights": tr["weights"], "ev": [dict(tr["ev"][-1], k="Structure")], "names": tr["names"],
-                               "mode": "structure"})
+                traces.append({"tid": tid, "net": tr["net"], "be": tag, "weights": tr["weights"],
+                               "ev": [dict(tr["ev"][-1], k="Structure", same_values=(value == ref))], "names": tr["names"], "mode": "structure"})
                 meta[tid] = (ci, tag)
             cellsets[tag] = (sorted(map(tuple, tr["ev"][-1]["cells"])), tr)
             if pid == "C04" and tag == "dense":
